@@ -354,6 +354,7 @@ extern "C" int sim_os_open(const char *path) {
     w.fd_owner[slot] = (int8_t)w.cur;
     int fd = w.plan->fd_base + slot;
     if (c.nfds < 16) c.fds[c.nfds++] = fd;
+    for (int i = 0; i < c.nclosed; i++) if (c.closed[i] == fd) c.closed[i] = c.closed[--c.nclosed];   // ours again: closing it once more is fine
     return fd;
 }
 static bool fd_is_open(World &w, int fd) {
@@ -382,6 +383,7 @@ extern "C" int sim_os_dup(int fd, int minfd) {
     if (slot >= World::NFD) { errno = EMFILE; return -1; }
     w.fd_owner[slot] = (int8_t)w.cur;
     int nfd = w.plan->fd_base + slot;
+    for (int i = 0; i < c.nclosed; i++) if (c.closed[i] == nfd) c.closed[i] = c.closed[--c.nclosed];
     c.opens++; c.fds_open++;
     if (c.nfds < 16) c.fds[c.nfds++] = nfd;
     return nfd;
